@@ -222,6 +222,12 @@ struct Opt {
 fn main() -> Result<()> {
     color_eyre::install()?;
     let opt = Opt::parse();
+    #[cfg(feature = "verif-hooks")]
+    if std::env::var("ANTNODE_VERIF_DUMP_OPT").is_ok() {
+        // verification hook: show how the command line was understood, then stop
+        println!("{opt:#?}");
+        return Ok(());
+    }
 
     if let Some(network_id) = opt.network_id {
         version::set_network_id(network_id);
